@@ -16,13 +16,40 @@ NA = {
 }
 # property -> (one-line level text, note)
 CLAIMED = {
+    'C01': "per-layer round trip  b = produce(v); b == independent reference encoding; parse(b) recovers every field, consumes exactly len(b), terminal; "
+           "produce(parsed) == b  -- scalars (full width), strings (<= 3..5 symbolic chars), EPATH segment shapes (values full width), status, typed data of "
+           "all 14 types, encapsulation frame, CPF items, Unconnected Send, CIP commands, Logix/Object services, Multiple Service Packet offsets",
+    'C02': "one frame (payload <= 3..5 symbolic bytes) + following bytes delivered under every 2-way (thorough: 3-way) chunking, byte-wise and coalesced; "
+           "request stream through the real enip_srv_tcp loop truncated at every byte offset",
     'C03': "one inductive step from an arbitrary (symbolic) tag state through the real Logix.request/Object.request vs. an array "
            "model, for every integer type, service kind and addressing form; tag length 4",
     'C04': "reply_elements index arithmetic for UNBOUNDED integers (all tag lengths/starts/counts/offsets/budgets) + driven "
            "fragmented read/write transfers on 5-6 element tags for scaled budgets with unwinding assertion",
     'C05': "every (tag type, request type) integer pair with the written value symbolic over the request type's full range; every "
            "index/count/offset/supplied-values combination around the tag bounds; unknown targets; Set Attribute Single byte counts",
+    'C06': "every service kind (valid and failing) with symbolic session/context/options through the real logix.process; Register with arbitrary "
+           "random-source values; 2-3 pipelined frames under every 3-way chunking through the real enip_srv_tcp loop",
+    'C07': "bundles of 1-2 (thorough: all pairs, some triples) members of 8 kinds with symbolic parameters from an arbitrary tag state vs. the same "
+           "requests issued one by one; offset table; byte-level bundle through the real MSP parser",
+    'C08': "every byte string <= 3..5 bytes through 17 library parsers and through logix.process (5 envelope kinds, embedded requests); 9 valid frames with "
+           "one byte replaced by every value at every position; no tag change, locks released, next request served",
+    'C10': "24 library machines with a symbolic limit (data path) 0..len+1, symbolic leading bytes and symbolic 2-block chaining; length-field vs limit; "
+           "symbolic repeat count",
+    'C11': "20 curated + all 80 one-operator (thorough: 2080 two-operator) expressions, built by the real from_regex, on every byte string <= 4..5 over "
+           "0..255 under every two-way chunking vs. a Brzozowski-derivative oracle",
+    'C12': "client results for ANY depth >= 0 and ANY bundle limit >= 0 (unbounded symbolic ints) on 3 operation lists x fragment on/off through the real "
+           "client over an in-process transport; route/send path separation of bundles; operation text forms from symbolic digits",
+    'C13': "4-operation exchange with the server-to-client stream cut at every byte offset (5 depth/bundle configurations, operate and process APIs), "
+           "client-to-server stream cut at every offset, proxy discard-and-reconnect",
+    'C14': "complete small/large Forward Open sessions and unconnected multi-read / large-array sessions encoded by the independent reference encoder with "
+           "symbolic field values, decoded by the reference decoder; pylogix in-process attempted in the thorough tier",
+    'C15': "5 configured personalities x 5 request route-path shapes x 3 services with symbolic ports/links through the real UCMM.request; 7 textual route "
+           "path forms from symbolic digits",
+    'C16': "every key <= 4..6 chars over {a,b,.} looked up in a fixed tree vs. path semantics; every 2-operation (thorough: 3) history of 8 operation kinds "
+           "over 12 dotted paths vs. a nested-dict model; reserved names; indexed list elements",
     'C19': "merge/shatter on 2-4 symbolic ranges with unbounded-in-bank addresses, symbolic reach/limit and a symbolic probe register",
+    'C20': "streaming tnet parser on SIZE 0..5 with symbolic payload, type, following byte and chunking; agreement with tnetstrings.dump; parse(dump(v)) for "
+           "ints, delimiter-alphabet strings and nested containers",
 }
 
 
